@@ -215,3 +215,66 @@ func (g *rgen) objectValue() Val {
 	}
 	return st
 }
+
+// depthJobs builds chains of references around the longest one a reader of
+// the source follows (limits.MaxExtractDepth = 256 references): r1 -> r2 ->
+// ... -> rk -> object.  Up to 256 the chain denotes the object from every
+// entry; beyond, the head is null (and only the head and the last reference
+// are used: entering an over-long chain in the middle is outside the
+// property, see CopierRef!Ambiguous).
+func depthJobs(ctx *core.Ctx) []Job {
+	rng := ctx.Rand("depth")
+	var jobs []Job
+	lengths := []int{254, 255, 256, 257, 258}
+	if ctx.Thorough() {
+		lengths = append(lengths, 2, 128, 253, 300, 511, 512)
+	}
+	idx := 0
+	for _, k := range lengths {
+		for variant := 0; variant < 5; variant++ {
+			var nodes []Node
+			for i := 1; i < k; i++ {
+				nodes = append(nodes, Node{N: i, K: "ref", To: i + 1})
+			}
+			obj := ar(sc("i:7"), sc("s:636861696e"))
+			var calls []Call
+			switch variant {
+			case 0: // the head alone
+				calls = []Call{{Op: "ref", N: 1}}
+			case 1: // head and the reference that names the object directly, in one array
+				v := ar(rf(1), rf(k))
+				calls = []Call{{Op: "val", V: &v}}
+			case 2: // the other order, as two calls
+				calls = []Call{{Op: "ref", N: k}, {Op: "ref", N: 1}, {Op: "ref", N: k}}
+			case 3: // entries in the middle (only where the whole chain resolves)
+				if k > maxChain || k < 4 {
+					continue
+				}
+				v := ar(rf(2), rf(1), rf(k/2), rf(k))
+				calls = []Call{{Op: "val", V: &v}}
+			case 4: // the object refers back to the head: a cycle through the whole chain
+				if k > maxChain {
+					continue
+				}
+				obj = ar(sc("i:7"), rf(1))
+				calls = []Call{{Op: "ref", N: 1}}
+			}
+			nodes = append(nodes, Node{N: k, K: "val", V: &obj})
+			for _, enc := range []string{"none", "rc4", "aes"} {
+				if enc != "none" && !ctx.Thorough() && variant > 1 {
+					continue
+				}
+				job := Job{Nodes: nodes, Calls: calls, Origin: fmt.Sprintf("depth/k=%d/v%d", k, variant)}
+				job.Src = SrcSpec{Enc: enc, Via: "ser", Seed: int64(idx)*53 + ctx.Seed}
+				if (idx+int(ctx.Seed))%3 == 0 {
+					job.Src.Via = "writer"
+				}
+				job.Dst = dstSpecs[(idx+rng.Intn(8))%len(dstSpecs)]
+				job.Dst.Seek = idx%2 == 0
+				jobs = append(jobs, job)
+				idx++
+			}
+		}
+	}
+	return jobs
+}
